@@ -300,6 +300,14 @@ def gen_pair(rng, tier):
         if ks == 'twostars':
             m = min(n, maxs)
         S = {'n': m, 'edges': structured(rng, ks, m)}
+        r2 = rng.random()
+        if r2 < 0.25 and G['n'] <= maxs:
+            # the pattern is the graph itself: every symmetry of a highly symmetric shape must be handled
+            S = {'n': G['n'], 'edges': dict(G['edges'])}
+        if r2 < 0.4 and rng.random() < 0.4:
+            # complements have the same symmetry but a very different edge structure
+            for g in (G, S):
+                g['edges'] = {(u, v): 0 for u in range(g['n']) for v in range(u + 1, g['n']) if (u, v) not in g['edges']}
         if rng.random() < 0.3:
             # perturb: add / remove one edge
             u, v = sorted(rng.sample(range(G['n']), 2)) if G['n'] > 1 else (0, 0)
